@@ -234,6 +234,76 @@ def _r1(model, rep):
        f"the rest are constructor fields", "Mesh.from_dict",
        f"dictionary keys written {sorted(wkeys)} are not all consumed by "
        f"from_dict (popped {sorted(consumed)})", fd.lineno)
+    # ---- dictionary round trip, interpreted for the four tag configurations
+    class DA:
+        """array / nested list with a name, a form and a transposition"""
+        skv_isarray = True
+
+        def __init__(self, name, form="array", tr=False):
+            self.name, self.form, self.tr = name, form, tr
+
+        def key(self):
+            return (self.name, self.form, self.tr)
+
+        def skv_getattr(self, name):
+            if name == "T" and self.form == "array":
+                return DA(self.name, "array", not self.tr)
+            if name == "tolist" and self.form == "array":
+                return PyFunc(lambda a, k, n: DA(self.name, "list", self.tr))
+            raise Unsupported(f"{self.form}.{name}")
+
+    def dhook(interp, name, args, kwargs, node):
+        if name in ("numpy.array", "numpy.asarray") and args and \
+                isinstance(args[0], DA):
+            return DA(args[0].name, "array", args[0].tr)
+        if name == "numpy.ascontiguousarray" and isinstance(args[0], DA) \
+                and args[0].form == "array":
+            return args[0]
+        return NotImplemented
+
+    def show(v):
+        if isinstance(v, dict):
+            return {k: show(x) for k, x in v.items()}
+        return v.key() if isinstance(v, DA) else v
+    for hasb in (False, True):
+        for hass in (False, True):
+            cfg = f"boundaries={'yes' if hasb else 'None'}," \
+                  f"subdomains={'yes' if hass else 'None'}"
+            b = {n: DA("B:" + n) for n in bnames[:2]} if hasb else None
+            s_ = {n: DA("S:" + n) for n in snames[:2]} if hass else None
+            mo = Obj(mcls, {"p": DA("p"), "t": DA("t"), "doflocs": DA("p"),
+                            "boundaries": b, "subdomains": s_,
+                            "_boundaries": b, "_subdomains": s_})
+            got = {}
+
+            def ctor2(a, k, n):
+                got["a"], got["k"] = a, k
+                return "MESH"
+            err = None
+            try:
+                d = Interp(model, call_hook=dhook).call(td, [], {},
+                                                        self_obj=mo)
+                Interp(model, call_hook=dhook).call(
+                    fd, [d], {}, self_obj=PyFunc(ctor2))
+            except Raised as e:
+                err = f"raises {e.what}"
+            except Unsupported as e:
+                raise AnalysisError(f"to_dict/from_dict [{cfg}]: {e}")
+            k = got.get("k", {})
+            want = {"doflocs": ("p", "array", False),
+                    "t": ("t", "array", False),
+                    "_boundaries": show(b), "_subdomains": show(s_)}
+            have = {x: show(k.get(x)) for x in want}
+            ok = err is None and have == want and set(k) == set(want) \
+                and not got.get("a")
+            _v(rep, R1, ok, f"dict-roundtrip[{cfg}]",
+               "to_dict then from_dict hands the constructor the same "
+               "points, cells and tag arrays (as arrays, same names)",
+               "Mesh.from_dict",
+               f"dictionary round trip with {cfg}: " + (err or (
+                   f"the constructor receives {have} (form 'list' = not "
+                   f"converted back to an array), expected {want}")),
+               fd.lineno)
     # ---- type tables and hexahedron permutation
     m = model.module(IO)
     it = Interp(model)
@@ -319,6 +389,62 @@ def _r1(model, rep):
             return cname(c) if c is not None else None
         return None
     wsel, rsel = perm_branches(tmf, wkey), perm_branches(fm, rkey)
+    # ---- legacy (MSH 2.2) tag parser: names come from m.field_data, which
+    # the writer never produces - so for files written by to_meshio it must
+    # be unreachable: every use of m.field_data sits under a test of it
+    marg = fm.params()[0]
+    wr_fd = [n for n in ast.walk(tmf.node) if isinstance(n, ast.keyword)
+             and n.arg == "field_data"]
+    parent = {}
+    for p_ in ast.walk(fm.node):
+        for c in ast.iter_child_nodes(p_):
+            parent[id(c)] = p_
+
+    def is_fd(e):
+        return isinstance(e, ast.Attribute) and e.attr == "field_data" \
+            and isinstance(e.value, ast.Name) and e.value.id == marg
+
+    def tests_fd(t):
+        if isinstance(t, ast.BoolOp) and isinstance(t.op, ast.And):
+            return any(tests_fd(v) for v in t.values)
+        if is_fd(t):
+            return True
+        if isinstance(t, ast.Compare) and len(t.ops) == 1 and isinstance(
+                t.left, ast.Call) and src(t.left.func) == "len" and \
+                t.left.args and is_fd(t.left.args[0]) and isinstance(
+                    t.comparators[0], ast.Constant):
+            c = t.comparators[0].value
+            return (isinstance(t.ops[0], (ast.Gt, ast.NotEq)) and c == 0) \
+                or (isinstance(t.ops[0], ast.GtE) and c == 1)
+        return False
+    uses = [n for n in ast.walk(fm.node) if is_fd(n)]
+    unguarded = []
+    for u in uses:
+        c, p_ = u, parent.get(id(u))
+        ok_ = False
+        in_test = False
+        while p_ is not None:
+            if isinstance(p_, ast.If):
+                if c is p_.test:
+                    in_test = tests_fd(p_.test)
+                elif c in p_.body and tests_fd(p_.test):
+                    ok_ = True
+            c, p_ = p_, parent.get(id(p_))
+        if not ok_ and not in_test:
+            unguarded.append(u)
+    _v(rep, R1, not unguarded and not wr_fd, "legacy-tag-parser",
+       f"the writer passes no field_data and the {len(uses)} uses of "
+       f"{marg}.field_data (names of MSH 2.2 physical groups) sit under a "
+       f"test that the table is present: files written by to_meshio never "
+       f"enter the legacy parser", "from_meshio",
+       (f"to_meshio now writes field_data: the legacy parser would run on "
+        f"skfem's own files" if wr_fd else
+        f"line {unguarded[0].lineno if unguarded else 0}: "
+        f"{marg}.field_data names the tags of the legacy MSH 2.2 parser but "
+        f"is used without a test that the table is present; the writer "
+        f"produces no such table, so on a file written by to_meshio every "
+        f"tag value found in the cell data becomes a tag named None"),
+       fm.lineno, FIO)
     for cls_name, nn in (("MeshHex1", 8), ("MeshHex2", 27)):
         w, r = wsel.get(cls_name), rsel.get(cls_name)
         ok = w is not None and r is not None and len(w) == len(r) == nn \
@@ -727,7 +853,19 @@ def run(model: Model, rep, tier: str) -> None:
 
 
 _IO = FIO
+_G22 = "    if len(boundaries) == 0 and m.cell_data and m.field_data:"
 MUTANTS = [
+    ("from_dict converts the boundaries when the subdomains are present",
+     [(FM, "        if 'boundaries' in data and data['boundaries'] is not "
+       "None:", "        if 'boundaries' in data and data['subdomains'] is "
+       "not None:")], "C17-R1"),
+    ("from_dict forgets to transpose the cells back",
+     [(FM, "            data['t'] = np.ascontiguousarray(np.array(data['t'])"
+       ".T)", "            data['t'] = np.ascontiguousarray(np.array("
+       "data['t']))")], "C17-R1"),
+    ("legacy MSH 2.2 parser entered without a table of names",
+     [(FIO, _G22, "    if len(boundaries) == 0 and 'gmsh:physical' in "
+       "m.cell_data:")], "C17-R1"),
     ("npz loader removes the prefix wherever it occurs in the name",
      [(FM, "                key[2:]: data[key]\n                for key in "
        "data.files\n                if key[:2] == 'b_'",
@@ -817,6 +955,12 @@ MUTANTS = [
       "'subdomains': subdomains,"), "C17-R1"),
 ]
 TWINS = [
+    ("legacy MSH 2.2 parser guarded by the length of the table",
+     [(FIO, _G22, "    if len(boundaries) == 0 and m.cell_data and "
+       "len(m.field_data) > 0:")]),
+    ("from_dict tests the tags with .get",
+     [(FM, "        if 'boundaries' in data and data['boundaries'] is not "
+       "None:", "        if data.get('boundaries') is not None:")]),
     ("npz loader strips the prefix with startswith / len",
      [(FM, "                key[2:]: data[key]\n                for key in "
        "data.files\n                if key[:2] == 'b_'",
